@@ -7,7 +7,7 @@ def run(ctx):
     ctx.assume("in reach: Drucker 1949, Cazacu 2001 (J2O/J3O at a fixed generic anisotropy: exact rational coefficients, stress state and c symbolic) and Cazacu 2004 (isotropic), value / normal / second-derivative variants, on their regular branch (J2 and seq above the documented thresholds, positive radicands); von Mises is under C01; derivatives are taken in Mandel components (TFEL convention)",
                "Hosford 1972 and Barlat 2004: only the eigen-completion helpers are under contract (internals::computeHosfordStressSecondDerivative, internals::completeBaralatStressSecondDerivative: from the eigenvalues, the rotation and the derivatives of the criterion with respect to the eigenvalues to the second derivative with respect to the stress; oracle: Hessians of products of power sums, see specs/C22/e2_eigen.cxx; 1D, 2D in-plane rotations, 3D rotations about one coordinate axis, every pattern of repeated eigenvalues); the eigen solvers and the pow/abs formulas of these criteria are NOT, hence Hosford(a=2)=Mises and Barlat(Id)=Hosford are not claimed",
                "out of reach, NOT claimed: Mohr-Coulomb (Lode angle trigonometry); Gurson-Tvergaard-Needleman, Rousselier-Tanguy-Besson, Michel-Suquet (cosh/exp, implicit scalar solves); Cazacu 2004 orthotropic and isotropy under change of basis are not built",
-               "quick: 1D and 2D; thorough adds 3D")
+               "quick: 1D and 2D; thorough adds Cazacu 2004 isotropic in 3D and Cazacu 2001 in 2D (Drucker 1949 in 3D is written, VERIF_EXPERIMENTAL, but did not finish in 30 minutes and is in neither tier)")
     run_spec(ctx, flags="-DVERIF_THOROUGH" if ctx.thorough else "", expect_min=60, per_timeout=600 if ctx.thorough else 60)
     run_spec(ctx, src="e2_eigen.cxx", exe="e2_eigen", flags="-DVERIF_THOROUGH" if ctx.thorough else "", expect_min=300, per_timeout=600 if ctx.thorough else 120)
     # derivative obligations have no symbolic-to-double replay: replay them against finite differences of the real code (replay/C22.cxx)
